@@ -6,6 +6,7 @@ from .. import fs as FS
 META = {
     "technique": "dominance over call-graph-summarised fs effects + who-may-call + loop/condition structure on MIR",
     "explanation": (
+        "R-C17.5: ownership closure over ADT field types — no strong sender of a queue whose items own Keyspace handles is owned by KeyspaceInner, except the flush queue, which closes before draining and refuses/re-checks in enqueue. R-C17.6: create_new is reached only where holds_database_files() answered false, and every name create_new lays out decides there. "
         "Decides: (1) in Database::recover the version check dominates every call with a file-system effect (including the "
         "lock and the journal recovery, which truncates), check_version only reads and returns Ok solely on the edge where "
         "the parsed header is FormatVersion::V3; (2) the lock (try_acquire on recover, create_new on create) dominates every "
